@@ -139,6 +139,13 @@ func isEdge(x uint64) bool {
 }
 
 func (tf *typeFacts) walk(d *Desc, depth int, nonZero bool) {
+	if d.K == KRef {
+		tf.classes["static-type-reference"] = true
+		if nonZero {
+			tf.multiOffset = true
+		}
+		return
+	}
 	if depth > tf.depth {
 		tf.depth = depth
 	}
@@ -249,7 +256,13 @@ func factsOf(d *Desc) *typeFacts {
 
 // dirtyVal is a value with every arm present, every vector non-empty and every integer non-zero: what a
 // destination may hold before Unmarshal overwrites it.
-func dirtyVal(d *Desc) Val {
+func dirtyVal(d *Desc) Val { return dirtyValN(d, 0) }
+
+func dirtyValN(d *Desc, refs int) Val {
+	if d.K == KRef {
+		refs++
+		d = d.res()
+	}
 	switch d.K {
 	case KU8, KU16, KU24, KU32, KU64, KEnum:
 		return Val{U: 0xa5}
@@ -258,11 +271,18 @@ func dirtyVal(d *Desc) Val {
 	case KBytes:
 		return Val{B: Hex{0xa5, 0xa5, 0xa5}}
 	case KVec:
-		return Val{L: []Val{dirtyVal(d.Elem)}}
+		if refs > 2 && d.Elem.hasRef() {
+			return Val{}
+		}
+		return Val{L: []Val{dirtyValN(d.Elem, refs)}}
 	case KStruct:
 		v := Val{L: make([]Val, len(d.Fields))}
 		for i := range d.Fields {
-			v.L[i] = dirtyVal(&d.Fields[i].D)
+			if refs > 2 && d.Fields[i].Arm && d.Fields[i].D.hasRef() {
+				v.L[i] = Val{Nil: true}
+				continue
+			}
+			v.L[i] = dirtyValN(&d.Fields[i].D, refs)
 		}
 		return v
 	}
@@ -305,6 +325,9 @@ func (ck *checker) blameDecode(in []byte, realOK bool, realVal *Val, realConsume
 }
 
 func (ck *checker) where(tr *Trial) string {
+	if ck.typ.Name() != "" {
+		return fmt.Sprintf("static type %s = %s trial %s", ck.typ, ck.d, tr.Note)
+	}
 	return fmt.Sprintf("type %s params %q trial %s", ck.d, ck.params, tr.Note)
 }
 
@@ -502,13 +525,55 @@ func (ck *checker) value(tr *Trial, idx int) {
 func errorsIsShape(err error) bool { return err != nil && category(err) == errShape.Error() }
 
 func checkCase(t *testing.T, c Case) (v harness.Verdict) {
+	classes := map[string]bool{}
+	if !checkOne(&c, &v, classes) {
+		return harness.Verdict{Discard: true}
+	}
+	// follow-up types coded in the same process right after this one (same-named static types)
+	for i := range c.Then {
+		checkOne(&c.Then[i], &v, classes)
+	}
+	for cl := range classes {
+		v.Classes = append(v.Classes, cl)
+	}
+	sort.Strings(v.Classes)
+	// one violation per signature and case is enough
+	seen := map[string]bool{}
+	var vs []harness.Violation
+	for _, x := range v.Violations {
+		if !seen[x.Sig] {
+			seen[x.Sig] = true
+			vs = append(vs, x)
+		}
+	}
+	v.Violations = vs
+	return v
+}
+
+// checkOne runs the trials of one type (generated, or static when c.Static names one).
+func checkOne(c *Case, v *harness.Verdict, classes map[string]bool) bool {
 	d := &c.Type
-	if err := d.validate(ctxTop, 0); err != nil {
-		v.Discard = true
-		return v
+	var typ reflect.Type
+	if c.Static != "" {
+		s := staticByName(c.Static)
+		if s == nil {
+			return false
+		}
+		d, typ = &s.Desc, s.Type
+		classes["static:"+s.Name] = true
+		classes["static-group:"+s.Group] = true
+		v.NonTrivial = true
+	} else {
+		if err := d.validate(ctxTop, 0); err != nil {
+			return false
+		}
+		typ = d.goType()
 	}
 	tf := factsOf(d)
-	ck := &checker{v: &v, d: d, typ: d.goType(), classes: tf.classes}
+	for cl := range tf.classes {
+		classes[cl] = true
+	}
+	ck := &checker{v: v, d: d, typ: typ, classes: classes}
 	if d.K != KStruct {
 		ck.params = d.tag()
 	}
@@ -532,22 +597,8 @@ func checkCase(t *testing.T, c Case) (v harness.Verdict) {
 			ck.decode(tr, tr.Input, nil)
 		}
 	}
-	v.NonTrivial = tf.multiOffset || tf.variant || tf.boundaryTag || ck.mutated
-	for cl := range ck.classes {
-		v.Classes = append(v.Classes, cl)
-	}
-	sort.Strings(v.Classes)
-	// one violation per signature and case is enough
-	seen := map[string]bool{}
-	var vs []harness.Violation
-	for _, x := range v.Violations {
-		if !seen[x.Sig] {
-			seen[x.Sig] = true
-			vs = append(vs, x)
-		}
-	}
-	v.Violations = vs
-	return v
+	v.NonTrivial = v.NonTrivial || tf.multiOffset || tf.variant || tf.boundaryTag || ck.mutated
+	return true
 }
 
 // Values: Marshal against the reference encoder, round trip, refusal of invalid values.
@@ -556,6 +607,18 @@ var Values = harness.Define(harness.Opts{
 	Rule:  "type descriptors (depth<=3, <=8(+variant) fields per struct: uint8/16/24/32/64, tls.Enum and aliases with size:1..8 or maxval at the width edges, [0..40]byte, []byte / []T / []struct with minlen/maxlen at the width edges, nested structs, 0-2 selector groups with 1-3 pointer arms anywhere after the selector, top-level non-struct types with params) realised by reflect.StructOf, 3-6 values each (boundary-biased; 40% made invalid in exactly one way: length below min / above max, enum wider than its size, uint24 overflow, unchosen arm present, chosen arm absent, selector without arm), plus 1-3 top-level presentations per case (pointer, typed nil pointer, **T, pointer to nil pointer, pointer to interface, nil interface, hostile params strings, unsupported or wrongly annotated Go types; Unmarshal into non-pointer / nil pointer / nil interface / **T) judged only as error-never-panic. Oracle: reference encoder/decoder over descriptors (RFC 5246 s4). Non-trivial: the type has a multi-byte field at a non-zero offset, a variant or a tag at a width boundary, or the value was made invalid",
 	Quick: 8000, Thorough: 20000, MaxSample: 900,
 }, genValues, checkCase)
+
+// Static: the same oracles on statically declared Go types, which reflect.StructOf cannot build: named types,
+// several distinct types sharing one qualified name (coded one after the other in drawn order) and
+// self-referential types.
+var Static = harness.Define(harness.Opts{
+	Name:  "static",
+	Rule:  "statically declared types with hand-written descriptors: five distinct function-local struct types all named c09.record (different enum sizes, prefix widths, bounds, field counts, arm values) taken 2-4 at a time in drawn order within one case, package-level named types (a vector of a named struct), and self-referential types (linked list through a variant pointer after its selector, tree through a vector of itself, mutually recursive expression nodes; nesting depth decided by the data, up to 6 levels). Per type 2-4 values (30% made invalid) and 1-3 byte strings (valid+tail, steering-integer rewrite, byte mutations, raw), judged exactly like the values / bytes sub-properties. Every case is non-trivial",
+	Quick: 1500, Thorough: 4000, MaxSample: 900,
+	// unbounded recursion over a self-referential TYPE is a fatal stack overflow, not a panic: persist each
+	// case before it runs so that the driver can name the culprit when the process dies
+	Crashy: true,
+}, genStatic, checkCase)
 
 // Bytes: Unmarshal against the reference decoder on encodings with trailing data, mutated encodings and raw bytes.
 var Bytes = harness.Define(harness.Opts{
